@@ -157,7 +157,7 @@ def rule_D(ck, an, units):
         # --- zero-rhs exit
         early = None
         for n in f.nodes.values():
-            if n['k'] == 'ret' and n.get('e') is not None:
+            if n['k'] == 'ret' and n.get('e') is not None and not f.in_lambda(n):
                 tup = [c for c in walk(n['e']) if c['k'] == 'call' and c.get('f') == 'std::make_tuple']
                 if tup and unwrap(tup[0]['a'][0])['k'] == 'lit' and unwrap(tup[0]['a'][1])['k'] == 'ref':
                     early = n
@@ -192,7 +192,7 @@ def rule_D(ck, an, units):
         if name in ZERO_ITER_EXCEPT:
             continue
         import c01
-        rets = [n for n in f.nodes.values() if n['k'] == 'ret' and n.get('e') is not None and n is not early]
+        rets = [n for n in f.returns() if n is not early]
         kd = None
         for r in rets:
             tup = [c for c in walk(r['e']) if c['k'] == 'call' and c.get('f') == 'std::make_tuple']
